@@ -255,7 +255,10 @@ func cmdVerify(args []string) int {
 	}
 	wg.Wait()
 	for _, o := range res.obls {
-		settled := o.Result.Status == "unsat" || (o.Cover && o.Result.Status == "sat")
+		settled := o.Result.Status == "unsat" || (o.Cover && o.Result.Status != "unsat")
+		if o.Cover && o.Result.Status == "unsat" {
+			settled = false // a vacuous precondition is re-checked standalone before it is reported
+		}
 		if settled || o.Result.Backend == "trivial" {
 			continue
 		}
